@@ -6,6 +6,7 @@ git -C /repo diff --quiet || { echo "/repo has uncommitted changes"; exit 2; }
 git -C /repo apply /verif/seeded/$S/patch.diff || { echo "patch does not apply"; exit 2; }
 ./check $P $T > /tmp/try-$S-$P.out 2>&1; RC=$?
 git -C /repo checkout -- .
+./check build >/dev/null 2>&1
 echo "seed=$S check=$P tier=$T rc=$RC"; grep -E "^VIOLATION|signature:|^\[check\] C" /tmp/try-$S-$P.out | head -6
 git checkout -- evidence 2>/dev/null
 exit 0
